@@ -186,6 +186,7 @@ fn vn(v: u8) -> &'static str {
         1 => "2",
         2 => "''",
         3 => "BIG",
+        4 => "BIG9K",
         _ => "?",
     }
 }
@@ -279,6 +280,7 @@ fn parse_val(s: &str) -> Result<Option<u8>, String> {
         "2" => Some(1),
         "''" => Some(2),
         "BIG" => Some(3),
+        "BIG9K" => Some(4),
         _ => return Err(format!("bad value {s}")),
     })
 }
